@@ -58,6 +58,27 @@ Record probe := mkProbe {
           3 app.Run, wire on a pointer field whose type has no provider
           4 app.Run, wire (by type) on a pointer field whose type has a provider
           5 app.Run, value on a string field *)
+(* what one parse reported (kinds 0-2) *)
+Record pobs := mkPobs {
+  fnprops : nat;
+  ftagval : bytes;
+  ftagstr_same : bool;
+  fargs : argmap;
+  freq : bool;
+  fprobes : list probe
+}.
+
+(* [cagain] : 0 = the tag text was parsed once.
+              1 | 2 = INDEPENDENCE of parses: the text was parsed (kinds 0-2: in the case's own way, the observation is
+              [cfirst]), the driver then scribbled over everything reachable from the result - every item of every value
+              slice overwritten in place, slices reordered and appended to, Property.SetArg / AddArg called with junk on every
+              existing name and on new ones, Required=false among them - and the SAME text was parsed again into a fresh
+              Property: that second parse is the case's observation.  2 = the first parse happened in another context
+              (another field / property type / tag key / struct type / component name / registry; for app.Run cases:
+              another App started earlier in the same process, whose post-processor rewrote the arguments).
+              The model's parse is a function of the tag text alone, so both observations are compared with the same
+              [model_of c]; the oracle demands that the second observation equals the first one and satisfies everything
+              a single parse has to satisfy. *)
 Record case := mkCase {
   cid : nat;
   ckind : N;
@@ -72,7 +93,9 @@ Record case := mkCase {
   cfailed : bool;           (* app.Run returned an error *)
   cfieldnil : bool;
   cfieldstr : bytes;
-  cintent : option (bytes * list (bytes * list bytes))
+  cintent : option (bytes * list (bytes * list bytes));
+  cagain : N;
+  cfirst : option pobs
 }.
 
 (* ---- decoding one serialised case ------------------------------------------------------------- *)
@@ -121,14 +144,22 @@ Definition p_intent : P (option (bytes * list (bytes * list bytes))) :=
   if present then p_bind p_bytes (fun v => p_bind (p_list p_kv) (fun args => p_ret (Some (v, args))))
   else p_ret None).
 
+Definition p_pobs : P pobs :=
+  p_bind p_num (fun nprops => p_bind p_bytes (fun tagval => p_bind p_bool (fun same =>
+  p_bind (p_list p_kv) (fun args => p_bind p_bool (fun req => p_bind (p_list p_probe) (fun probes =>
+  p_ret (mkPobs nprops tagval same args req probes))))))).
+
+Definition p_first : P (option pobs) :=
+  p_bind p_bool (fun present => if present then p_bind p_pobs (fun f => p_ret (Some f)) else p_ret None).
+
 Definition p_case (id : nat) : P case :=
   p_bind p_num (fun kind => p_bind p_bytes (fun tag => p_bind p_bool (fun panic =>
   p_bind p_num (fun nprops => p_bind p_bytes (fun tagval => p_bind p_bool (fun same =>
   p_bind (p_list p_kv) (fun args => p_bind p_bool (fun req => p_bind (p_list p_probe) (fun probes =>
   p_bind p_bool (fun failed => p_bind p_bool (fun fieldnil => p_bind p_bytes (fun fieldstr =>
-  p_bind p_intent (fun intent =>
+  p_bind p_intent (fun intent => p_bind p_num (fun again => p_bind p_first (fun first =>
   p_ret (mkCase id (N.of_nat kind) tag panic nprops tagval same args req probes failed fieldnil
-                fieldstr intent)))))))))))))).
+                fieldstr intent (N.of_nat again) first)))))))))))))))).
 
 Definition decode_case (id : nat) (blob : list int) : option case :=
   match p_case id (B blob) with
@@ -193,6 +224,16 @@ Definition model_of (c : case) : res (bytes * argmap) :=
 
 Definition is_nil (b : bytes) : bool := match b with [] => true | _ => false end.
 
+(* the observation of the case itself (with cagain > 0: of the parse AFTER the scribbling) *)
+Definition obs_of_case (c : case) : pobs :=
+  mkPobs (cnprops c) (ctagval c) (ctagstr_same c) (cargs c) (creq c) (cprobes c).
+
+(* one parse against the model's (value, arguments, required) *)
+Definition check_pobs (v : bytes) (m : argmap) (req : bool) (o : pobs) : bool :=
+  Nat.eqb (fnprops o) 1 && bytes_eqb v (ftagval o) && ftagstr_same o
+  && map_eqb (sort_map m) (fargs o) && Bool.eqb req (freq o)
+  && forallb (check_probe m) (fprobes o).
+
 Definition check_case (c : case) : bool :=
   match model_of c with
   | Panic => cpanic c
@@ -203,9 +244,8 @@ Definition check_case (c : case) : bool :=
     | Ok req =>
       match ckind c with
       | 0%N | 1%N | 2%N =>
-        Nat.eqb (cnprops c) 1 && bytes_eqb v (ctagval c) && ctagstr_same c
-        && map_eqb (sort_map m) (cargs c) && Bool.eqb req (creq c)
-        && forallb (check_probe m) (cprobes c)
+        check_pobs v m req (obs_of_case c)
+        && match cfirst c with Some f => check_pobs v m req f | None => true end
       | 3%N => Bool.eqb (cfailed c) req && cfieldnil c
       | 4%N => negb (cfailed c) && negb (cfieldnil c)
       | _ => if is_nil v then Bool.eqb (cfailed c) req && is_nil (cfieldstr c)
@@ -273,10 +313,37 @@ Definition oracle_probe (obs : argmap) (p : probe) : bool :=
                        || existsb (fun x => existsb (bytes_eqb x) (pwants p)) (pvals p)))
   else true.
 
+(* independence of parses: two observations of the same tag text are equal, whatever happened in between *)
+Definition probe_eqb (a b : probe) : bool :=
+  bytes_eqb (pname a) (pname b) && lbytes_eqb (pwants a) (pwants b)
+  && Bool.eqb (pfpanic a) (pfpanic b) && Bool.eqb (pfound a) (pfound b) && lbytes_eqb (pvals a) (pvals b)
+  && Bool.eqb (phpanic a) (phpanic b) && Bool.eqb (phas a) (phas b) && Bool.eqb (phasw a) (phasw b).
+
+Fixpoint probes_eqb (a b : list probe) : bool :=
+  match a, b with
+  | [], [] => true
+  | x :: a', y :: b' => probe_eqb x y && probes_eqb a' b'
+  | _, _ => false
+  end.
+
+Definition pobs_eqb (a b : pobs) : bool :=
+  Nat.eqb (fnprops a) (fnprops b) && bytes_eqb (ftagval a) (ftagval b)
+  && Bool.eqb (ftagstr_same a) (ftagstr_same b) && map_eqb (fargs a) (fargs b)
+  && Bool.eqb (freq a) (freq b) && probes_eqb (fprobes a) (fprobes b).
+
+Definition independent (c : case) : bool :=
+  match cagain c, cfirst c with
+  | 0%N, None => true
+  | 0%N, Some _ => false
+  | _, Some f => pobs_eqb f (obs_of_case c)
+  | _, None => false                      (* a repeated parse always reports its first observation *)
+  end.
+
 Definition oracle_case (c : case) : bool :=
   negb (cpanic c) &&
   match ckind c with
   | 0%N | 1%N | 2%N =>
+    independent c &&
     Nat.eqb (cnprops c) 1 && ctagstr_same c && strictly_sorted (cargs c)
     && Bool.eqb (creq c) (negb (o_optional (cargs c)))
     && forallb (oracle_probe (cargs c)) (cprobes c)
